@@ -180,14 +180,8 @@ class FeatureManager:
                 logger.error('Feature "%s" is already registered.', feature_name)
                 raise FeatureAlreadyRegisteredError(feature_name)
 
-            assign_help_attrs(f, feature_name, ATTR_FEATURE_TYPE)
-
-            wrapped = wrap_with_server(f, self.server)
-            # Assign help attributes for thread decorator
-            assign_help_attrs(wrapped, feature_name, ATTR_FEATURE_TYPE)
-
-            self._features[feature_name] = wrapped
-
+            # Validate the options before touching the registry, so that a
+            # rejected registration leaves no trace.
             if options:
                 options_type = get_method_options_type(feature_name)
                 if options_type and not is_instance(
@@ -200,6 +194,16 @@ class FeatureManager:
                             f" which is not a subtype of {options_type}"
                         )
                     )
+
+            assign_help_attrs(f, feature_name, ATTR_FEATURE_TYPE)
+
+            wrapped = wrap_with_server(f, self.server)
+            # Assign help attributes for thread decorator
+            assign_help_attrs(wrapped, feature_name, ATTR_FEATURE_TYPE)
+
+            self._features[feature_name] = wrapped
+
+            if options:
                 self._feature_options[feature_name] = options
 
             logger.info('Registered "%s" with options "%s"', feature_name, options)
